@@ -320,6 +320,11 @@ def _piecewise_step(u: Poly, cp: Poly, kind: str) -> Poly | None:
             ("app", kind, tuple(rest)))
     if a[0] == "ite":
         if cp.as_atom() in all_atoms(a[1]):
+            # a leaf written as a comparison: `if t < m: m = t`
+            red = _minmax_ite(a[1], a[2], a[3], cp) or _minmax_enum(u, cp)
+            if red is not None and red[0] == kind + "red" and \
+                    cp.as_atom() not in all_atoms(red[1]):
+                return red[1]
             return None
         x = _piecewise_step(a[2], cp, kind)
         y = _piecewise_step(a[3], cp, kind)
